@@ -42,7 +42,11 @@ RULE = (
     "through the native permanent / Laplace permanent for every forced "
     "hardware_concurrency value, with and without OpenMP; threads: kernel values and "
     "seeded samples recomputed in child processes with 1/2/5/16 threads; history: "
-    "Hypothesis-generated (program, seed, interleaved actions) triples on all samplers; "
+    "Hypothesis-generated (program, seed, interleaved actions) triples on all samplers, "
+    "seed given to the Config constructor or through the seed_sequence setter; dask: mixing "
+    "passive boson-sampling programs (lossless/lossy/partially distinguishable) with 1..1100 "
+    "shots executed sequentially and twice with use_dask=True, compared shot by shot "
+    "(non-trivial = samples vary); "
     "seeds: distinct seeds must give distinct sample sequences when the outcome entropy is "
     ">=1 bit and shots>=16. Non-trivial = job count != default or >=1 interleaved action, "
     "measurement not deterministic. Distinct by hash of the case."
